@@ -368,7 +368,7 @@ def run_reconnect(case, st):
 
         def remove_network(self):
             self.network = None
-    for kind in RECONNECT_KINDS:
+    for kind in RECONNECT_KINDS + ("all",):
         for stop_first, app_shutdown in ((False, False), (True, False)) + (((False, True),) if case["shutdown_stops"] else ()):
             simenv.new_world()
             bus = simenv.SimBus("inline", modifiable_tasks=case["mod"], shutdown_stops_tasks=case["shutdown_stops"])
@@ -377,13 +377,22 @@ def run_reconnect(case, st):
             net.add_node(ListenOnlyNode(4, od()))
             r = net.add_node(canopen.RemoteNode(5, od()))
             loc = net.add_node(canopen.LocalNode(6, od()))
-            r.rpdo[1].cob_id, loc.tpdo[1].cob_id = 0x205, 0x186
+            r.rpdo[1].cob_id, loc.tpdo[1].cob_id, r.tpdo[1].cob_id = 0x205, 0x186, 0x185
             r.rpdo[1].add_variable(0x2000)
+            r.tpdo[1].add_variable(0x2000)
             loc.tpdo[1].add_variable(0x2000)
-            can_id = {"sync": 0x80, "r-rpdo": 0x205, "l-tpdo": 0x186, "heartbeat": 0x706, "guarding": 0x705}[kind]
+            can_id = {"sync": 0x80, "r-rpdo": 0x205, "l-tpdo": 0x186, "heartbeat": 0x706, "guarding": 0x705, "all": 0x80}[kind]
 
             def start():
-                if kind == "sync":
+                if kind == "all":
+                    # every producer at once: one refused stop must not keep the others from being stopped / forgotten
+                    net.sync.start(0.1)
+                    r.rpdo[1].start(0.1)
+                    r.tpdo[1].start(0.1)          # a second map of the same node
+                    loc.tpdo[1].start(0.1)
+                    loc.nmt.start_heartbeat(100)
+                    r.nmt.start_node_guarding(0.1)
+                elif kind == "sync":
                     net.sync.start(0.1)
                 elif kind == "r-rpdo":
                     r.rpdo[1].start(0.1)
@@ -395,7 +404,14 @@ def run_reconnect(case, st):
                     r.nmt.start_node_guarding(0.1)
 
             def stop():
-                if kind == "sync":
+                if kind == "all":
+                    net.sync.stop()
+                    r.rpdo[1].stop()
+                    r.tpdo[1].stop()
+                    loc.tpdo[1].stop()
+                    loc.nmt.stop_heartbeat()
+                    r.nmt.stop_node_guarding()
+                elif kind == "sync":
                     net.sync.stop()
                 elif kind == "r-rpdo":
                     r.rpdo[1].stop()
@@ -433,14 +449,14 @@ def run_reconnect(case, st):
                     stop()
                 step = "second start"
                 start()
-                live = [t.view()[:4] for t in bus.live_tasks() if t.view()[0] == can_id]
-                if len(live) != 1 or abs(live[0][2] - 0.1) > 1e-9:
-                    st.violation(f"C17:reconnect:{kind}:tasks-after-restart", rc, "one task with period 0.1",
+                live = [t.view()[:4] for t in bus.live_tasks() if kind == "all" or t.view()[0] == can_id]
+                if len(live) != (6 if kind == "all" else 1) or any(abs(t[2] - 0.1) > 1e-9 for t in live):
+                    st.violation(f"C17:reconnect:{kind}:tasks-after-restart", rc, "one task with period 0.1 per producer started",
                                  [(hex(t[0]), t[2]) for t in live])
                     continue
                 step = "stop"
                 stop()
-                live = [t.view()[:4] for t in bus.live_tasks() if t.view()[0] == can_id]
+                live = [t.view()[:4] for t in bus.live_tasks() if kind == "all" or t.view()[0] == can_id]
                 if live:
                     st.violation(f"C17:reconnect:{kind}:leak-after-stop", rc, "no task", [(hex(t[0]), t[2]) for t in live])
                     continue
